@@ -270,6 +270,10 @@ func (b *Box) Send(msgType uint8, topic []byte, msg []byte, to ...UniversalID) {
 		msgs.lock.RLock()
 		messages = msgs.messages
 		msgs.lock.RUnlock()
+		// The topic has started, so it no longer counts as an in-flight (buffered) topic of its senders
+		for _, sender := range msgs.senders() {
+			delete(b.totalInFlightTopicsBySender[sender], string(topic))
+		}
 	}
 
 	defer func() {
